@@ -16,6 +16,7 @@ CONSTANTS
   SummaryStateless = TRUE
   WeightsRebuilt = TRUE
   FeedCopied = TRUE
+  OutlierColumnsOwn = TRUE
 INVARIANT Functional
 INVARIANT SeedDerived
 CHECK_DEADLOCK FALSE
